@@ -77,6 +77,18 @@ CLAIMED.update({
             "Exact reals; hypergeometric Laplace approximations, exp/log/lgamma and the Poisson pmf are "
             "uninterpreted functions of their (proved scale-free) arguments.", TECH + "; two-run relational "
             "(product) encoding", "4/C06"),
+    "C07": ("Relational symbolic execution on real tskit skeletons (<= 3 trees, <= 8 nodes, incl. diploid inputs "
+            "with shared leaf edges) whose breakpoints, site positions and sequence length are symbols, at "
+            "coordinates x with rate mu and at c x with rate mu / c for one symbolic c > 0: z3 proves every "
+            "array the real ExpectationPropagation.__init__ derives (plain and size-biased mutation counts "
+            "and spans * rate, singleton blocks, orders) identical, phased and unphased; whole "
+            "InsideOutsideMethod.run / MaximizationMethod.run posterior means / variances identical in "
+            "both probability spaces (2-3 grid points); SpansBySamples spans * c and mixture prior "
+            "parameters identical.",
+            "Variational part is proved at the data-extraction layer: the EP loop and rescale take no tree "
+            "sequence argument, so equal extracted arrays give equal results (by the code's data flow, not "
+            "re-proved). Exact reals; replays use the public API at non-integer factors.",
+            TECH + "; two-run relational (product) encoding", "4/C07"),
     "C19": ("For every positive real x (symbolic, piecewise over the axis) z3 proves the executed arithmetic of "
             "_digamma/_trigamma equal to the exact recurrence plus the Stirling series with exact Bernoulli "
             "coefficients (to 1e-16) and bounds the first omitted term where the series is used (1e-14 / 1e-11 "
